@@ -348,6 +348,11 @@ def churn(kind, k):
         "remove": '        let mut a: array<string> = [(int_to_string i), "k", "z"]\n        set a (array_remove_at a 0)\n        set n (+ n (array_length a))\n',
         "tuples": '        let t: (int, string) = (i, (int_to_string i))\n        set n (+ n t.0)\n',
         "concat": '        set acc (+ "p" (int_to_string (% i 3)))\n        set n (+ n (str_length acc))\n',
+        # element-wise operators on arrays of strings / ints build fresh elements
+        "arrayadd": '        let a: array<string> = [(int_to_string i), "x"]\n        let b: array<string> = ["-", (int_to_string (+ i 7))]\n        let c: array<string> = (+ a b)\n        set n (+ n (array_length c))\n',
+        "broadcast": '        let a: array<string> = [(int_to_string i), "x"]\n        let c: array<string> = (+ a (int_to_string (* i 3)))\n        let d: array<int> = (* [i, 2] 3)\n        set n (+ n (+ (array_length c) (at d 1)))\n',
+        "slices": '        let a: array<string> = [(int_to_string i), "k", (+ "z" (int_to_string i))]\n        let b: array<string> = (array_slice a 1 2)\n        set n (+ n (array_length b))\n',
+        "poppush": '        let a: array<string> = [(int_to_string i), "q"]\n        let mut b: array<string> = []\n        set b (array_push b (at a 0))\n        let last: string = (array_pop b)\n        set n (+ n (str_length last))\n',
     }[kind]
     return ("struct Point { x: int, y: int }\n"
             "fn inc(x: int) -> int { return (+ x 1) }\nshadow inc { assert (== (inc 1) 2) }\n"
@@ -356,4 +361,4 @@ def churn(kind, k):
             "    while (< i %d) {\n%s        set i (+ i 1)\n    }\n    (println n)\n    return 0\n}\nshadow main { assert (== 1 1) }\n" % (k, body))
 
 
-CHURN_KINDS = ["strings", "arrays", "structs", "nested", "calls", "remove", "tuples", "concat"]
+CHURN_KINDS = ["strings", "arrays", "structs", "nested", "calls", "remove", "tuples", "concat", "arrayadd", "broadcast", "slices", "poppush"]
